@@ -147,4 +147,24 @@ func init() {
 		Outside: []string{"AppendList / AppendDatabase and the list-level API (SignatureList.AppendBytes on a list of another size)", "duplicates across two lists of equal type and size (the statement is read per list)", "real certificates (data is opaque bytes)"},
 		Assumptions: append([]string{"encoding/pem.Decode is modelled: PEM inputs are introduced with vsym.PEMOf (decode to their DER bytes), other symbolic data is assumed not to be PEM text; native replays use the real encoding/pem"}, commonAssumptions...),
 	}
+	registry["C19"] = &Property{
+		Quick: []HarnessSpec{
+			{Name: "VC19_ImageReadOnly", Params: map[string]int{"vsymC01Nsec": 1, "vsymC01Plus": 1, "vsymC01Lfanew": 0x80, "vsymC01NoCert": 1, "vsymC19Signed": 1}, MaxDecisions: 1500, TimeoutSec: 400, NeedReach: []string{"end"}},
+			{Name: "VC19_DatabaseReadOnly", Params: map[string]int{"vsymC09Lists": 2, "vsymC09Entries": 1}, MaxPaths: 3000000, TimeoutSec: 300, NeedReach: []string{"end"}},
+			{Name: "VC19_SignedUpdateReadOnly", Params: map[string]int{"vsymC19Len": 4096}, NeedReach: []string{"end"}},
+			{Name: "VC19_DescriptorReadOnly", Params: map[string]int{"vsymC19Len": 64}, ConcAlloc: true, MaxDecisions: 4000, NeedReach: []string{"end"}},
+		},
+		Thorough: []HarnessSpec{
+			{Name: "VC19_ImageReadOnly", Params: map[string]int{"vsymC01Nsec": 1, "vsymC01Plus": 1, "vsymC01Lfanew": 0x80, "vsymC01NoCert": 1, "vsymC19Signed": 1}, MaxDecisions: 1500, TimeoutSec: 600, NeedReach: []string{"end"}},
+			{Name: "VC19_ImageReadOnly", Params: map[string]int{"vsymC01Nsec": 1, "vsymC01Plus": 0, "vsymC01Lfanew": 0x40, "vsymC01NoCert": 1, "vsymC19Signed": 0}, MaxDecisions: 1500, TimeoutSec: 600, NeedReach: []string{"end"}},
+			{Name: "VC19_ImageReadOnly", Params: map[string]int{"vsymC01Nsec": 2, "vsymC01Plus": 1, "vsymC01Lfanew": 0x80, "vsymC01NoCert": 1, "vsymC01NonEmpty": 1, "vsymC19Signed": 1}, MaxDecisions: 1500, TimeoutSec: 3000, NeedReach: []string{"end"}},
+			{Name: "VC19_DatabaseReadOnly", Params: map[string]int{"vsymC09Lists": 2, "vsymC09Entries": 2}, MaxPaths: 3000000, TimeoutSec: 3000, NeedReach: []string{"end"}},
+			{Name: "VC19_SignedUpdateReadOnly", Params: map[string]int{"vsymC19Len": 1 << 16}, NeedReach: []string{"end"}},
+			{Name: "VC19_DescriptorReadOnly", Params: map[string]int{"vsymC19Len": 160}, ConcAlloc: true, MaxDecisions: 4000, TimeoutSec: 1200, NeedReach: []string{"end"}},
+		},
+		Bounds: []string{"parsed symbolic image (C01 shape, 1 section, no pre-existing table, two appended signatures of fixed lengths 5 and 8): Hash, Bytes, Signatures, Open+drain twice in both orders; database of C09 shapes: Bytes, Marshal, BytesExists, SigDataExists, Exists twice in both orders; signed-update wrapper value with symbolic content <= 4096 bytes; decoded descriptor <= 64 bytes",
+			"repeatability: results equal (decided by SMT / structural byte-string equality)", "purity: the executor's write log contains no store into any slot, buffer or map reachable from the object (and the caller's reader) before the calls; evidence.reached shows 'readonly:*' for every path"},
+		Outside: []string{"actual goroutine interleavings and the Go race detector: concurrency safety is concluded only through the sufficient condition 'the operations store nothing into shared state' (then every interleaving is race-free and returns the sequential results); a non-empty write set with repeatable results would be reported as undecided, not as a violation", "Verify (needs the PKCS#7 model)"},
+		Assumptions: commonAssumptions,
+	}
 }
